@@ -63,17 +63,42 @@ def wrap_list(prog, vals):
 
 
 RECORDS = [False]
+UNIONS = [False]
+
+
+def gen_level(d, rec_at):
+    """-> (program, value) of a structure with d list levels counted from the leaves (d = 1: a flat array)"""
+    if UNIONS[0] and random.random() < 0.2:
+        (pa, va), (pb, vb) = gen_level_plain(d, rec_at), gen_level_plain(d, rec_at)
+        tags, index, vals, ca, cb = [], [], [], 0, 0
+        while ca < len(va) or cb < len(vb):
+            if cb >= len(vb) or (ca < len(va) and random.random() < 0.5):
+                tags.append(0); index.append(ca); vals.append(va[ca]); ca += 1
+            else:
+                tags.append(1); index.append(cb); vals.append(vb[cb]); cb += 1
+        if random.random() < 0.5 and vals:         # a union may show only some entries, in any order
+            keep = [random.randrange(len(vals)) for _ in range(random.randint(0, len(vals)))]
+            tags, index, vals = [tags[i] for i in keep], [index[i] for i in keep], [vals[i] for i in keep]
+        return pa + pb + 'union8_64 %d %s %s 2 ' % (len(tags), ' '.join(map(str, tags)), ' '.join(map(str, index))), vals
+    return gen_level_plain(d, rec_at)
+
+
+def gen_level_plain(d, rec_at):
+    if d == 1:
+        prog, vals = gen_leaf(random.randint(0, 8))
+        prog, vals = wrap_option(prog, vals)
+    else:
+        prog, vals = gen_level(d - 1, rec_at)
+        if d - 2 == rec_at:
+            prog, vals = prog + 'dup record 2 %d x y ' % len(vals), [{'x': v, 'y': v} for v in vals]
+        prog, vals = wrap_list(prog, vals)
+        prog, vals = wrap_option(prog, vals)
+    return prog, vals
 
 
 def gen(depth):
-    prog, vals = gen_leaf(random.randint(0, 8))
-    prog, vals = wrap_option(prog, vals)
     rec_at = random.randrange(depth) if RECORDS[0] else -1
-    for d in range(depth - 1):
-        if d == rec_at:
-            prog, vals = prog + 'dup record 2 %d x y ' % len(vals), [None if v is None and False else {'x': v, 'y': v} for v in vals]
-        prog, vals = wrap_list(prog, vals)
-        prog, vals = wrap_option(prog, vals)
+    prog, vals = gen_level(depth, rec_at)
     if rec_at == depth - 1:
         prog, vals = prog + 'dup record 2 %d x y ' % len(vals), [{'x': v, 'y': v} for v in vals]
     return prog, vals
@@ -230,12 +255,46 @@ def main():
     random.seed(seed)
     if 'records' in sys.argv:
         RECORDS[0] = True
+    if 'unions' in sys.argv:
+        UNIONS[0] = True
     bad = 0
     for t in range(count):
         depth = random.randint(1, 3)
         prog, v = gen(depth)
         if R(prog + 'validity') != ('OK', ''):
             continue
+        if 'merge' in ops:
+            # concatenation along axis 0: two or three arrays of the same depth
+            parts = [(prog, v)] + [gen(depth) for _ in range(random.randint(1, 2))]
+            if all(R(p_ + 'validity') == ('OK', '') for p_, _ in parts):
+                exp = [x for _, v_ in parts for x in v_]
+                cmd = ''.join(p_ for p_, _ in parts) + ('merge' if len(parts) == 2 else 'mergemany 2')
+                got = R(cmd); main.n = getattr(main, 'n', 0) + 1
+                gotv = R(cmd + ' validity')
+                if got[0] != 'OK' or got[1] != exp or gotv != ('OK', ''):
+                    bad += 1
+                    if bad <= 15:
+                        print('MISMATCH merge\n   values %s\n   got %s %s\n   exp %s\n   prog %s' % ([v_ for _, v_ in parts], str(got)[:300], gotv, str(exp)[:300], cmd))
+        if 'fillna' in ops:
+            fv = random.randint(100, 109)
+            def fill(x, d):
+                if d == 0:
+                    return fv if x is None else x
+                return None if False else ([fill(y, d - 1) for y in x] if x is not None else (fv if False else None))
+            # fillna replaces None at every level by the value (Content::fillna recurses through lists)
+            def fill_all(x):
+                if x is None:
+                    return fv
+                if isinstance(x, list):
+                    return [fill_all(y) for y in x]
+                return x
+            cmd = prog + 'i64 1 %d fillna' % fv
+            got = R(cmd); main.n = getattr(main, 'n', 0) + 1
+            exp = fill_all(v)
+            if got[0] != 'OK' or got[1] != exp:
+                bad += 1
+                if bad <= 15:
+                    print('MISMATCH fillna\n   value %s\n   got %s\n   exp %s\n   prog %s' % (v, str(got)[:300], str(exp)[:300], cmd))
         if 'getitem' in ops:
             for _ in range(6):
                 items, cmd = gen_items(depth)
@@ -248,7 +307,7 @@ def main():
                     bad += 1
                     if bad <= 15:
                         print('MISMATCH %s\n   value %s\n   got %s\n   exp %s\n   prog %s' % (cmd, v, str(got)[:300], str(exp)[:300], prog + cmd))
-        for op in [o for o in ops if o != 'getitem']:
+        for op in [o for o in ops if o not in ('getitem', 'merge', 'fillna')]:
             for axis in range(0, depth):
                 for neg in (False, True):
                     ax = axis - depth if neg else axis
